@@ -23,6 +23,8 @@ from vlib import impl, model
 from harness import sched as S
 
 RULE = ("scenarios {steady (connected, publishers + loop thread), shutdown (disconnect()+loop_stop() at any moment), "
+        "appreconnect (loop_start() thread running, an application thread calls reconnect() on a used client while a "
+        "publisher publishes), "
         "async (connect_async: publishers race with the loop thread's first connect), reconnect (the broker drops the "
         "connection while publishers run)} x {1..3 publishers} x {QoS 0/1/2 mixes} x {max_inflight 1, 2, 20}; "
         "schedules: depth-first enumeration of ALL schedules with at most B preemptions (iterative context bounding; "
@@ -53,8 +55,9 @@ SIG_C = "F-C07c-loop-stop-join-none"
 SIG_D = "F-C07d-qos0-dropped-unmarked-by-reconnect"
 SIG_E = "F-C07e-lost-qos0-reported-success"
 SIG_F = "F-C07f-inflight-negative-publish-during-reconnect"
+SIG_G = "F-C07g-popped-packet-written-on-new-socket"
 # a-e were fixed in /repo (c6905fd, 0ed8c5c, 189c9f8, 060dbc4): their stored schedules are regression replays that must pass
-EXPECTED_OPEN = (SIG_F,)
+EXPECTED_OPEN = (SIG_F, SIG_G)
 LOCK_IDS = {"_mid_generate_mutex": 0, "_out_message_mutex": 1, "_in_callback_mutex": 2, "_callback_mutex": 3,
             "_msgtime_mutex": 4, "_in_message_mutex": 5, "_reconnect_delay_mutex": 6, "info_condition": 7}
 ROOT = os.path.dirname(os.path.dirname(os.path.abspath(__file__)))
@@ -63,6 +66,7 @@ CORPUS = os.path.join(ROOT, "corpus", "C07")
 HOOKED = frozenset({"_send_publish", "_mid_generate", "_packet_queue", "loop_write"})
 LOCK_ATTRS = ["_in_callback_mutex", "_callback_mutex", "_msgtime_mutex", "_out_message_mutex", "_in_message_mutex",
               "_reconnect_delay_mutex", "_mid_generate_mutex"]
+RECON = ("reconnect", "appreconnect")       # scenarios in which a connection is replaced while publishers run
 # lockset check: every access of the message store made while another thread is alive
 GUARDED = {"_out_messages": "_out_message_mutex", "_inflight_messages": "_out_message_mutex"}
 WORKERS = max(1, min(8, (os.cpu_count() or 2) // 2))
@@ -135,6 +139,9 @@ class Broker:
 
     def new_sock(self):
         s = S.SSock(self)
+        sch = S._CUR[0]
+        if sch is not None:
+            sch.event("new-sock", sock=s.id)
         self.socks.append(s)
         self.pos[s.id] = 0
         self.packets[s.id] = []
@@ -358,6 +365,22 @@ def make_control(cfg, sch, c, broker, run):
             snapshot()
             s.explore = False
             shutdown()
+        elif scen == "appreconnect":
+            # loop_start() thread running on an established connection; an APPLICATION thread calls reconnect()
+            # while publishers publish
+            api("connect", lambda: c.connect("h", keepalive=60))
+            api("loop_start", c.loop_start)
+            wait(lambda: run.connected >= 1 and loop_parked(s), "connected and loop parked")
+            s.explore = True
+            start_pubs()
+            api("reconnect", c.reconnect)
+            for t in pubs:
+                t.join()
+            wait(lambda: run.connected >= 2, "reconnected")
+            wait(lambda: all_done() and quiet(), "all messages complete, loop idle")
+            snapshot()
+            s.explore = False
+            shutdown()
         else:
             raise ValueError(scen)
 
@@ -428,8 +451,29 @@ def judge(run):
         if len(sk.wire) != b.pos[sk.id]:
             add("torn-packet", "connection %d: %d trailing bytes do not form a packet" % (sk.id, len(sk.wire) - b.pos[sk.id]))
         if pk and pk[0][0] >> 4 != 1:
-            add(SIG_A, "connection %d: first packet on the wire is type %d (...%r), CONNECT comes %s" % (
-                sk.id, pk[0][0] >> 4, bytes(pk[0][1][-5:]), "later" if any(f >> 4 == 1 for f, _ in pk) else "never"))
+            # was that packet taken out of the queue before this socket existed?  (F-C07g: _packet_write pops, then
+            # reads self._sock in _sock_send; a reconnect() on another thread in between replaces the socket)
+            born = first_send = None
+            for n_, (thr, kind, d) in enumerate(sch.events):
+                if kind == "new-sock" and d["sock"] == sk.id:
+                    born = n_
+                elif kind == "send" and d["sock"] == sk.id and first_send is None:
+                    first_send = (n_, thr)
+            popped = None
+            if first_send is not None:
+                for n_ in range(first_send[0] - 1, -1, -1):
+                    thr, kind, d = sch.events[n_]
+                    if thr == first_send[1] and kind == "popleft" and not d["empty"]:
+                        popped = n_
+                        break
+            if born is not None and popped is not None and popped < born:
+                add(SIG_G, "connection %d: its first packet (type %d, ...%r) had been taken out of the queue by %s before "
+                           "this socket existed and was written on it ahead of CONNECT: _packet_write() pops, then reads "
+                           "self._sock in _sock_send(); reconnect() ran on another thread in between"
+                    % (sk.id, pk[0][0] >> 4, bytes(pk[0][1][-5:]), first_send[1]))
+            else:
+                add(SIG_A, "connection %d: first packet on the wire is type %d (...%r), CONNECT comes %s" % (
+                    sk.id, pk[0][0] >> 4, bytes(pk[0][1][-5:]), "later" if any(f >> 4 == 1 for f, _ in pk) else "never"))
         for pos, (first, body) in enumerate(pk):
             if first >> 4 == 3:
                 tl = int.from_bytes(body[:2], "big")
@@ -443,7 +487,7 @@ def judge(run):
                 appear[(i, j)].append((sk.id, pos, (first >> 3) & 1, q))
     # scheduler-level failures
     dropped = []
-    if scen == "reconnect":
+    if scen in RECON:
         queued_now = {p_["mid"] for p_ in collections.deque.__iter__(c._out_packet)}
         for i, rs in run.results.items():
             for (j, q, info, rc) in rs:
@@ -495,11 +539,11 @@ def judge(run):
             if not ap and complete:
                 if scen in ("steady", "async") or (scen == "shutdown" and (i, j) in run.returned_before_disc):
                     add("lost-packet", "%s returned success and never reached the wire" % name)
-                elif scen == "reconnect" and info._published and info.rc == 0:
+                elif scen in RECON and info._published and info.rc == 0:
                     add(SIG_E, "%s was discarded by reconnect() (marked lost: rc=MQTT_ERR_CONN_LOST, published) but "
                                "publish() then overwrote info.rc with MQTT_ERR_SUCCESS: is_published() is True and rc is 0 "
                                "for a message that never reached the wire" % name)
-                elif scen == "reconnect" and not (info._published and info.rc == mqtt.MQTT_ERR_CONN_LOST):
+                elif scen in RECON and not (info._published and info.rc == mqtt.MQTT_ERR_CONN_LOST):
                     add("qos0-dropped-silently", "%s never reached the wire and was not marked lost (rc=%s published=%s)"
                         % (name, int(info.rc), info._published))
             if ap and run.on_publish[info.mid] != 1 and complete:
@@ -525,7 +569,7 @@ def judge(run):
                         sk.id, i + 1, "QoS>0" if cls else "QoS 0", js))
     # accounting
     if complete and scen != "shutdown":
-        if c._inflight_messages < 0 and len(c._out_messages) == 0 and scen in ("async", "reconnect"):
+        if c._inflight_messages < 0 and len(c._out_messages) == 0 and scen in ("async", "reconnect", "appreconnect"):
             add(SIG_F, "_inflight_messages=%d after every message completed: a QoS>0 publish() that ran between "
                        "reconnect()'s _messages_reconnect_reset() and `self._sock = ...` was stored without being counted, "
                        "was sent on CONNACK and decremented the counter when acknowledged" % c._inflight_messages)
@@ -870,6 +914,8 @@ def plans(ctx):
         ("async-2x1", {"scenario": "async", "msgs": [[0], [0]]}, 1 if q else 2),
         ("reconnect-2x2-drop1", {"scenario": "reconnect", "msgs": [[0, 0], [0]], "drop_after": 1}, 1 if q else 2),
         ("async-1x1-q1", {"scenario": "async", "msgs": [[1]], "max_inflight": 2}, 1 if q else 2),
+        # loop_start() thread + an application thread calling reconnect() on a used client + a publisher
+        ("appreconnect-1x1", {"scenario": "appreconnect", "msgs": [[0]]}, 2),
     ]
     if not q:
         dfs += [
@@ -888,6 +934,7 @@ def plans(ctx):
         ("async-3x2", {"scenario": "async", "msgs": [[0, 1], [2, 0], [0, 0]], "max_inflight": 2}),
         ("reconnect-3x2", {"scenario": "reconnect", "msgs": [[0, 1], [2, 0], [0, 0]], "drop_after": 2, "max_inflight": 2}),
         ("reconnect-ctl", {"scenario": "reconnect", "msgs": [[0, 0], [0, 1]]}),
+        ("appreconnect-2x2", {"scenario": "appreconnect", "msgs": [[0, 1], [0, 0]], "max_inflight": 2}),
     ]
     return dfs, samples
 
